@@ -57,6 +57,35 @@ FREE = (string.ascii_letters + string.digits +
 # small strategy helpers
 # ---------------------------------------------------------------------------
 
+def _harden_shrinker():
+    """Hypothesis 6.168 computes shrinker.sort_key(nodes) *before* it checks
+    choice_permitted(); when the 'duplicated choices' pass copies a string
+    into a text node with another alphabet, sort_key raises ValueError
+    ("125 is not in list") and the whole run dies as a harness error instead
+    of reporting the violation it was shrinking.  An impermissible candidate
+    is simply 'not simpler': give it the largest key, which makes
+    cached_test_function reject it exactly as the next line there would."""
+    try:
+        from hypothesis.internal.conjecture import shrinker
+    except ImportError:  # pragma: no cover
+        return
+    original = shrinker.sort_key
+    if getattr(original, '_c15_safe', False):
+        return
+
+    def sort_key(nodes):
+        try:
+            return original(nodes)
+        except ValueError:
+            return (float('inf'), ())
+
+    sort_key._c15_safe = True
+    shrinker.sort_key = sort_key
+
+
+_harden_shrinker()
+
+
 # Strategy objects are built once: constructing (and validating) them inside
 # every draw costs more than the draw itself.
 cached = functools.lru_cache(maxsize=None)
@@ -242,6 +271,19 @@ def same(left, right):
     return left == right
 
 
+def _real(bucket, what, func, *args, **kwargs):
+    """Call into the code under test.  Reading back what was just written
+    must yield the value; an exception there is a lossy encoding, not a
+    harness problem (harness code is never called through here)."""
+    try:
+        return func(*args, **kwargs)
+    except Violation:
+        raise
+    except Exception as err:  # pylint: disable=broad-except
+        raise Violation(bucket + '.raises', '%s raised %s: %s' % (
+            what, type(err).__name__, err))
+
+
 def _short(obj, limit=300):
     text = json.dumps(obj, sort_keys=True, default=repr)
     return text if len(text) <= limit else text[:limit] + '...'
@@ -350,11 +392,15 @@ def check_rule(case, stats):
         want = rule_expected_key(val)
         if rule_key(val['chain'], rule) != want:
             raise AssertionError('harness: rule model mismatch %r' % (val,))
-        name = rulefile.RuleMgr._filenameify(val['chain'], rule)
+        name = _real('c15.rule.%s.encode' % val['kind'],
+                     '_filenameify(%s)' % _short(val),
+                     rulefile.RuleMgr._filenameify, val['chain'], rule)
         if '/' in name or name in ('.', '..') or '\0' in name:
             raise Violation('c15.rule.name-not-a-filename',
                             'rule %s encodes as %r' % (_short(val), name))
-        back = rulefile.RuleMgr.get_rule(name)
+        back = _real('c15.rule.%s.decode' % val['kind'],
+                     'get_rule(%r) for %s' % (name, _short(val)),
+                     rulefile.RuleMgr.get_rule, name)
         if back is None:
             raise Violation(
                 'c15.rule.%s.not-decodable' % val['kind'],
@@ -408,9 +454,11 @@ def _check_rule_fs(vals, keys, stats):
         os.mkdir(apps_dir)
         mgr = rulefile.RuleMgr(rules_dir, apps_dir)
         for val in vals:
-            mgr.create_rule(val['chain'], build_rule(val), 'owner-0')
-        found = sorted((rule_key(c, r) for c, r in mgr.get_rules()),
-                       key=repr)
+            _real('c15.rule.fs-create', 'create_rule(%s)' % _short(val),
+                  mgr.create_rule, val['chain'], build_rule(val), 'owner-0')
+        found = sorted((rule_key(c, r) for c, r in _real(
+            'c15.rule.fs-list', 'get_rules() after %s' % _short(vals),
+            mgr.get_rules)), key=repr)
         listed = len(os.listdir(rules_dir))
         want = sorted(set(keys), key=repr)
         if found != want or listed != len(want):
@@ -449,11 +497,15 @@ def check_name(case, stats):
     nontrivial = False
     for val in vals:
         if case.get('via') == 'manifest':
-            uname = appcfg.manifest_unique_name(
-                {'name': val['instance'], 'uniqueid': val['uniqueid']})
+            uname = _real('c15.name.encode', _short(val),
+                          appcfg.manifest_unique_name,
+                          {'name': val['instance'],
+                           'uniqueid': val['uniqueid']})
         else:
-            uname = appcfg.app_unique_name(types.SimpleNamespace(
-                name=val['instance'], uniqueid=val['uniqueid']))
+            uname = _real('c15.name.encode', _short(val),
+                          appcfg.app_unique_name, types.SimpleNamespace(
+                              name=val['instance'],
+                              uniqueid=val['uniqueid']))
         tail = uname[-13:]
         if (len(uname) < 15 or uname[-14] != '-' or
                 any(c not in B62 for c in tail)):
@@ -461,8 +513,10 @@ def check_name(case, stats):
                 'c15.name.tail-not-13',
                 '%s -> %r does not end in -<13 chars of [0-9a-zA-Z]>' %
                 (_short(val), uname))
-        back_name = appcfg.app_name(uname)
-        back_id = appcfg.app_unique_id(uname)
+        back_name = _real('c15.name.decode', 'app_name(%r)' % uname,
+                          appcfg.app_name, uname)
+        back_id = _real('c15.name.decode', 'app_unique_id(%r)' % uname,
+                        appcfg.app_unique_id, uname)
         if back_name != val['instance']:
             raise Violation(
                 'c15.name.instance-roundtrip',
@@ -573,16 +627,21 @@ def check_uniqueid(case, stats):
         encs = []
         for num in (case['n'], case['n2']):
             if alphabet:
-                text = utils.to_base_n(num, base=len(alphabet),
-                                       alphabet=alphabet)
-                back = utils.from_base_n(text, base=len(alphabet),
-                                         alphabet=alphabet)
+                text = _real('c15.uniqueid.basen-encode', 'to_base_n(%d)' %
+                             num, utils.to_base_n, num, base=len(alphabet),
+                             alphabet=alphabet)
+                back = _real('c15.uniqueid.basen-decode', 'from_base_n(%r)' %
+                             text, utils.from_base_n, text,
+                             base=len(alphabet), alphabet=alphabet)
                 padded = '{identifier:>013s}'.format(identifier=text)
-                back_padded = utils.from_base_n(padded, base=62,
-                                                alphabet=alphabet)
+                back_padded = _real(
+                    'c15.uniqueid.basen-decode', 'from_base_n(%r)' % padded,
+                    utils.from_base_n, padded, base=62, alphabet=alphabet)
             else:
-                text = utils.to_base_n(num)
-                back = utils.from_base_n(text)
+                text = _real('c15.uniqueid.basen-encode', 'to_base_n(%d)' %
+                             num, utils.to_base_n, num)
+                back = _real('c15.uniqueid.basen-decode', 'from_base_n(%r)' %
+                             text, utils.from_base_n, text)
                 back_padded = back
             if back != num or back_padded != num:
                 raise Violation(
@@ -620,21 +679,27 @@ def check_uniqueid(case, stats):
     appcfg.os = _OsShim(table)
     try:
         for path, ctime, val in files:
-            uid = appcfg.gen_uniqueid(path)
-            uname = appcfg.eventfile_unique_name(path)
-            if len(uid) != 13 or any(c not in B62 for c in uid):
+            uid = _real('c15.uniqueid.gen', 'gen_uniqueid(%s)' % _short(val),
+                        appcfg.gen_uniqueid, path)
+            uname = _real('c15.uniqueid.gen', 'eventfile_unique_name(%s)' %
+                          _short(val), appcfg.eventfile_unique_name, path)
+            if not isinstance(uid, str) or len(uid) != 13 or any(c not in B62 for c in uid):
                 raise Violation(
                     'c15.uniqueid.not-13-chars',
                     'gen_uniqueid(%s) = %r' % (_short(val), uid))
             if uname[-14:] != '-' + uid or \
-                    appcfg.app_name(uname) != val['instance'] or \
-                    appcfg.app_unique_id(uname) != uid:
+                    _real('c15.name.decode', 'app_name(%r)' % uname,
+                          appcfg.app_name, uname) != val['instance'] or \
+                    _real('c15.name.decode', 'app_unique_id(%r)' % uname,
+                          appcfg.app_unique_id, uname) != uid:
                 raise Violation(
                     'c15.uniqueid.eventfile-name',
                     'event file %r -> %r does not split back into '
                     '(%r, %r)' % (val['instance'], uname, val['instance'],
                                   uid))
-            number = utils.from_base_n(uid, base=62, alphabet=B62)
+            number = _real('c15.uniqueid.basen-decode',
+                           'from_base_n(%r)' % uid, utils.from_base_n, uid,
+                           base=62, alphabet=B62)
             if number != _b62_value(uid) or number >= 2 ** 77:
                 raise Violation(
                     'c15.uniqueid.range',
@@ -858,8 +923,12 @@ def _decoded_key(event, etype, server):
 def _encode_event_pure(val, server):
     """to_data + the two format strings of publish / zknamespace."""
     from treadmill import zknamespace as z
-    event = build_event(val, server)
-    _ts, _src, what, etype, data, _payload = event.to_data()
+    tag = 'srvevent' if server else 'appevent'
+    event = _real('c15.%s.%s.encode' % (tag, val['type'].replace('_', '-')),
+                  'constructing %s' % _short(val), build_event, val, server)
+    _ts, _src, what, etype, data, _payload = _real(
+        'c15.%s.%s.encode' % (tag, val['type'].replace('_', '-')),
+        'to_data of %s' % _short(val), event.to_data)
     node = '%s,%s,%s,%s' % (_when_str(val), val['host'], etype, data)
     if server:
         path = z.path.server_trace(what, node)
@@ -1015,8 +1084,9 @@ def _check_events(case, stats, server):
                     (_short(vals[0]), _short(vals[1]), names[0]))
     if case.get('pipeline'):
         posted = [v for v in vals if v.get('style') != 's6']
-        for val, (nodes, events) in zip(posted,
-                                        _pipeline_events(posted, server)):
+        for val, (nodes, events) in zip(posted, _real(
+                'c15.%s.pipeline' % tag, 'post/publish/read of %s' %
+                _short(posted), _pipeline_events, posted, server)):
             want = _event_key(val, server)
             if len(nodes) != 1:
                 raise Violation(
@@ -1188,9 +1258,12 @@ def check_zkpayload(case, stats):
     for idx, val in enumerate(vals):
         zkclient = _CaptureZk()
         path = '/c15/node-%d' % idx
-        _zk_write(zkclient, case['op'], path, copy.deepcopy(val))
+        _real('c15.zkpayload.encode', '%s(%s)' % (case['op'], _short(val)),
+              _zk_write, zkclient, case['op'], path, copy.deepcopy(val))
         raw = zkclient.nodes[path]
-        back, _meta = zkutils.get_with_metadata(zkclient, path)
+        back, _meta = _real('c15.zkpayload.decode', 'get(%r) for %s' %
+                            (raw[:200], _short(val)),
+                            zkutils.get_with_metadata, zkclient, path)
         if not same(back, val):
             raise Violation(
                 'c15.zkpayload.roundtrip',
@@ -1687,7 +1760,10 @@ def _check_ldap(case, stats, kind):
         elif kind == 'partition':
             ldap_obj = _ldap_obj(kind)
             dn = ldap_obj.dn([val['partition'], val['cell']])
-        entry, back = _ldap_roundtrip(kind, obj, case['via'], dn)
+        entry, back = _real(
+            'c15.%s.roundtrip' % tag, 'to_entry/from_entry of %s (via %s)' %
+            (_short(obj, 500), case['via']),
+            _ldap_roundtrip, kind, obj, case['via'], dn)
         back = dict(back)
         if kind == 'cellalloc':
             if back.pop('_id', None) != ident:
@@ -1714,7 +1790,10 @@ def _check_ldap(case, stats, kind):
                 (kind, _short(obj, 500), _short(back, 500), diff,
                  case['via']))
         # second pass: what was read is itself stable
-        _entry2, again = _ldap_roundtrip(kind, back, case['via'], None)
+        _entry2, again = _real(
+            'c15.%s.not-stable' % tag, 'to_entry/from_entry of %s' %
+            _short(back, 500), _ldap_roundtrip, kind, back, case['via'],
+            None)
         if not same(norm(again), got):
             raise Violation(
                 'c15.%s.not-stable' % tag,
@@ -1864,8 +1943,10 @@ def check_diff_entries(case, stats):
         wanted = set(k.lower() for k in _ldap._entry_plain_keys(new_entry))
         old_entry = {attr: values for attr, values in stored.items()
                      if attr.split(';', 1)[0].lower() in wanted}
-    diff = _ldap._diff_entries(copy.deepcopy(old_entry),
-                               copy.deepcopy(new_entry))
+    diff = _real('c15.diff_entries', '_diff_entries(%s, %s)' %
+                 (_short(old_entry, 400), _short(new_entry, 400)),
+                 _ldap._diff_entries, copy.deepcopy(old_entry),
+                 copy.deepcopy(new_entry))
     error, result = apply_modlist(old_entry, diff)
     if error:
         raise Violation(
@@ -1892,7 +1973,81 @@ def check_diff_entries(case, stats):
     if not diff:
         stats.count('diff_entries:empty-diff')
     stats.count('diff_entries:mode-' + case['mode'])
+    if case['mode'] in UPDATED_KINDS:
+        _check_update(case, stats)
     return len(kinds) >= 2
+
+
+# the classes whose LdapObject.update has production callers
+# (api/allocation.py reservation.update, cli/admin/ldap/{allocation,partition})
+UPDATED_KINDS = ('cellalloc', 'partition')
+
+
+def _sorted_lists(obj):
+    return {k: (sorted(v, key=repr) if isinstance(v, list) and
+                all(not isinstance(i, dict) for i in v) else v)
+            for k, v in obj.items()}
+
+
+def _check_update(case, stats):
+    """Object level, through the real LdapObject.update -> Admin.update ->
+    _diff_entries -> Admin.modify: every field that was written reads back."""
+    from treadmill.admin import _ldap
+    kind = case['mode']
+    cls = {'cellalloc': _ldap.CellAllocation,
+           'partition': _ldap.Partition}[kind]
+    admin = _ldap.Admin(None, 'dc=xx,dc=com')
+    ldap_obj = cls(admin)
+    ident = ['cell1', 'tenant:sub/alloc'] if kind == 'cellalloc' \
+        else ['part1', 'cell1']
+    old, new = case['old'], case['new']
+    # the record as LdapObject.create left it in the directory
+    stored = server_normalise(
+        _ldap._remove_empty(ldap_obj.to_entry(copy.deepcopy(old))))
+    captured = []
+
+    def fake_get(_dn, _query, attrs, paged_search=True, dirty=False):
+        wanted = set(attr.lower() for attr in attrs)
+        return {attr: list(values) for attr, values in stored.items()
+                if attr.split(';', 1)[0].lower() in wanted}
+
+    admin.get = fake_get
+    admin.modify = lambda _dn, changes: captured.append(changes)
+    _real('c15.ldap_update', 'update(%s) over %s' % (_short(new, 400),
+                                                     _short(old, 400)),
+          ldap_obj.update, ident, copy.deepcopy(new))
+    assert len(captured) == 1, captured
+    error, result = apply_modlist(stored, captured[0])
+    if error:
+        raise Violation(
+            'c15.ldap_update.' + error,
+            'update(%s) over %s sends %s, refused by a directory (%s on %r)'
+            % (_short(new, 400), _short(old, 400), _short(captured[0], 400),
+               error, result))
+    norm = _NORM[kind]
+    back = _real('c15.ldap_update', 'from_entry(%s)' % _short(result, 400),
+                 ldap_obj.from_entry, copy.deepcopy(result), None)
+    got = _sorted_lists(norm(back))
+    want = _sorted_lists(norm(new))
+    before = _sorted_lists(norm(old))
+    for key in sorted(new):
+        if key == '_id' or same(got.get(key), want.get(key)):
+            continue
+        if new[key] == [] and same(got.get(key), before.get(key)):
+            raise Violation(
+                'c15.ldap_update.empty-list-not-cleared',
+                '%s stored as %s, then update(%s): field %r was written as '
+                '[] but still reads back as %r (modify list %s)' %
+                (kind, _short(old, 300), _short(new, 300), key,
+                 got.get(key), _short(captured[0], 300)))
+        raise Violation(
+            'c15.ldap_update.field.%s' % key.replace('_', '-'),
+            '%s stored as %s, then update(%s): field %r reads back as %r, '
+            'written %r' % (kind, _short(old, 300), _short(new, 300), key,
+                            got.get(key), want.get(key)))
+    stats.count('diff_entries:update-' + kind)
+    if any(new[key] == [] and before.get(key) for key in new):
+        stats.count('diff_entries:update-clears-list')
 
 
 # ---------------------------------------------------------------------------
@@ -1904,8 +2059,28 @@ FUZZ_DECODERS = ('rule', 'name', 'basen', 'appevent', 'srvevent',
 
 
 def fuzz_one(decoder, text, stats=None):
-    """decode(text) either rejects, or decode(encode(decode(text))) is the
-    same value.  Returns 'reject' / 'ok'."""
+    """decode(text) either rejects (None / an exception: counted, C15 makes no
+    claim about names Treadmill did not write), or the value it returns must
+    survive being written and read again: decode(encode(decode(text))) ==
+    decode(text).  Returns 'reject' / 'raises' / 'ok'."""
+    try:
+        return _fuzz_one(decoder, text)
+    except _FirstDecodeRaised:
+        return 'raises'
+
+
+class _FirstDecodeRaised(Exception):
+    pass
+
+
+def _first(func, *args, **kwargs):
+    try:
+        return func(*args, **kwargs)
+    except Exception:  # pylint: disable=broad-except
+        raise _FirstDecodeRaised()
+
+
+def _fuzz_one(decoder, text):
     from treadmill import appcfg
     from treadmill import rulefile
     from treadmill import utils
@@ -1918,7 +2093,7 @@ def fuzz_one(decoder, text, stats=None):
             (text, what[0], what[1], again))
 
     if decoder == 'rule':
-        back = rulefile.RuleMgr.get_rule(text)
+        back = _first(rulefile.RuleMgr.get_rule, text)
         if back is None:
             return 'reject'
         key = rule_key(back[0], back[1])
@@ -1930,7 +2105,8 @@ def fuzz_one(decoder, text, stats=None):
     if decoder == 'name':
         if text.count('-') < 2:
             return 'reject'
-        inst, uid = appcfg.app_name(text), appcfg.app_unique_id(text)
+        inst = _first(appcfg.app_name, text)
+        uid = _first(appcfg.app_unique_id, text)
         if '#' not in inst or inst.count('#') != 1 or len(uid) != 13:
             return 'reject'
         name = appcfg.manifest_unique_name({'name': inst, 'uniqueid': uid})
@@ -1950,7 +2126,7 @@ def fuzz_one(decoder, text, stats=None):
         return 'ok'
     if decoder in ('appevent', 'srvevent'):
         server = decoder == 'srvevent'
-        event = _decode_event_pure(text, server)
+        event = _first(_decode_event_pure, text, server)
         if event is None:
             return 'reject'
         etype = event.event_type
@@ -1989,6 +2165,16 @@ def check_fuzz(case, stats):
     stats.count('fuzz:%s:%s' % (case['decoder'], verdict))
     return verdict == 'ok'
 
+
+FUZZ_TOKENS = [
+    ':dnat:', ':snat:', ':passthrough:', 'tcp', 'udp', ':*', '*:', '-', ':',
+    '.', ',', '#', '0', '65535', '00', '1.2.3.4', 'TM_PASSTHROUGH',
+    ',scheduled,', ',pending,', ',pending_delete,', ',configured,',
+    ',deleted,', ',finished,', ',aborted,', ',killed,', ',service_running,',
+    ',service_exited,', ',server_state,', ',server_blackout,',
+    ',server_blackout_cleared,', 'oom', 'None', ':down', 'up', 'frozen',
+    '{', '}', '[', ']', 'null', 'true', '1e5', '\\u00e9', '": ',
+]
 
 FUZZ_SEEDS = [
     ('rule', 'TM_PREROUTING_DNAT:dnat:tcp:*:*:10.0.0.1:08080-192.168.0.2:80'),
